@@ -331,6 +331,9 @@ def src_const(v):
     if isinstance(v, int):
         assert v >= 0
         return str(v)
+    if isinstance(v, float):
+        assert v >= 0 and v == v and v != float("inf")
+        return repr(v)
     if isinstance(v, str):
         assert '"' not in v and "\\" not in v and "\n" not in v
         return '"' + v + '"'
@@ -380,6 +383,13 @@ def to_src(e):
         return "(" + ", ".join(to_src(x) for x in e[1]) + ("," if len(e[1]) == 1 else "") + ")"
     if t == "D":
         return "{" + ", ".join(to_src(k) + ": " + to_src(v) for k, v in e[1]) + "}"
+    if t == "callx":        # call with *args / **kwargs (reference-evaluator stream only; outside the Coq model)
+        parts = [to_src(x) for x in e[2]] + [k + "=" + to_src(x) for k, x in e[3]]
+        if e[4] is not None:
+            parts.append("*" + to_src(e[4]))
+        if e[5] is not None:
+            parts.append("**" + to_src(e[5]))
+        return p(e[1]) + "(" + ", ".join(parts) + ")"
     if t == "call":
         return p(e[1]) + "(" + ", ".join([to_src(x) for x in e[2]] + [k + "=" + to_src(x) for k, x in e[3]]) + ")"
     if t == "F":
@@ -662,6 +672,9 @@ class EGen:
         if ty == "fn":
             return ("N", r.choice(NAMES_BY_TYPE["fn"]))
         if ty == "none":
+            if use_const and self.const_rich and r.random() < 0.35:
+                # a CONSTANT expression whose value is the environment's undefined object
+                return r.choice([(".", ("D", []), "a"), ("[]", ("L", []), ("C", 0)), ("[]", ("D", [(("C", "k"), ("C", 1))]), ("C", "a")), (".i", ("L", [("C", 1)]), 3)])
             return ("C", None) if use_const else ("N", r.choice(["n0", "u0"]))
         return self.atom(r.choice(["int", "str", "bool", "list", "dict", "obj", "none"]))
 
